@@ -11,6 +11,22 @@ SHALLOW = {'list', 'dict', 'tuple', 'set', 'frozenset', 'sorted', 'reversed', 'e
 ELEMENT_METHODS = {'get', 'pop', 'items', 'values', 'keys', 'setdefault', 'popitem', '__getitem__'}
 
 
+def component(t):
+    """the i-th component of an element of zip(a, b, ..) is an element of the i-th sequence; of enumerate(xs), the
+    counter or an element of xs"""
+    if t[0] != 'unpack':
+        return t
+    base = component(t[1])
+    i = t[2]
+    if base[0] == 'elem' and base[1][0] == 'call' and base[1][1][0] == 'name' and isinstance(i, int) and not any(a[0] == 'star' for a in base[1][2]):
+        f, args = base[1][1][1], base[1][2]
+        if f == 'zip' and not base[1][3] and 0 <= i < len(args):
+            return ('elem', args[i], None)
+        if f == 'enumerate' and args:
+            return ('elem', args[0], None) if i == 1 else ('const', 0) if i == 0 else ('unpack', base, i)
+    return ('unpack', base, i)
+
+
 class Alias(object):
     def __init__(self, tainted_names, elems_only=()):
         self.tainted = set(tainted_names)
@@ -19,6 +35,7 @@ class Alias(object):
 
     def self_(self, t):
         """may t denote a caller-visible (tainted) object itself?"""
+        t = component(t)
         k = t[0]
         if k == 'name':
             return t[1] in self.tainted
@@ -39,6 +56,7 @@ class Alias(object):
 
     def elems(self, t):
         """may the elements / fields of t be caller-visible objects?"""
+        t = component(t)
         k = t[0]
         if k == 'name':
             return t[1] in self.tainted or t[1] in self.elems_only
